@@ -115,7 +115,12 @@ def run_job(job, root):
             return out
         if job.get('return_response'):
             out['response'] = g['response']
-        res, names = materialise(g['response'], scratch)
+        if job.get('materialise', True):
+            res, names = materialise(g['response'], scratch)
+        else:
+            from google.protobuf.compiler import plugin_pb2
+            res = plugin_pb2.CodeGeneratorResponse.FromString(g['response'])
+            names = [f.name for f in res.file]
         out['names'] = names
         out['supported_features'] = res.supported_features
         keep = job.get('keep')
